@@ -130,6 +130,48 @@ def inst_task(task):
     return n, out
 
 
+def cli_task(task):
+    """Worker: one instance through the command, as a file and as inline content (--cfile/--hfile --filename): every
+    leading context must give 0 INVALID_HEADER, every mutation exactly 1 -- whatever the input mode."""
+    import json
+    import os
+    import shutil
+    import tempfile
+    label, fname, lines, tier = task
+    hdr = "\n".join(lines) + "\n"
+    ctxs = contexts(fname)
+    body = ctxs.get("function") or ctxs["guard"]
+    cases = [(f"context={c}", hdr + "\n" + b, 0) for c, b in ctxs.items()]
+    cases += [(mid, region + "\n" + body, 1) for mid, region in list(mutations(lines)) + [("H1.code", "")]]
+    out = []
+    n = 0
+    d = tempfile.mkdtemp(prefix="mcverif_c13_")
+    try:
+        for what, text, want in cases:
+            path = os.path.join(d, fname)
+            with open(path, "w") as f:
+                f.write(text)
+            flag = "--cfile" if fname.endswith(".c") else "--hfile"
+            for mode, argv in (("file", [path]), ("inline", [flag, text, "--filename", fname])):
+                if mode == "inline" and (text.startswith("-") or not text):
+                    continue
+                n += 1
+                o = impl.run_cli(["--no-colors", "-f", "json"] + argv, cwd=d)
+                try:
+                    doc = json.loads([l for l in o["stdout"].split("\n") if l.strip()][-1])
+                    k = sum(1 for fl in doc["files"] for e in fl["errors"] if e["name"] == "INVALID_HEADER")
+                except Exception:  # noqa: BLE001
+                    if o["exc"] is None and o["code"] == 1 and "Error!" in o["stdout"]:
+                        continue        # fatal parse diagnostic (some mutations put code fragments first): no report to count
+                    out.append(("cli", f"{what}:{mode}", f"unreadable output {o['stdout'][-120:]!r} exc {o['exc']} ({label})"))
+                    continue
+                if k != want:
+                    out.append(("cli", f"{what}:{mode}", f"{k} INVALID_HEADER through the command ({mode}), expected {want} ({label})"))
+    finally:
+        shutil.rmtree(d, ignore_errors=True)
+    return n, out
+
+
 # ---------------------------------------------------------------- state-machine sequences
 
 KINDS = {
@@ -191,6 +233,20 @@ def run(tier, seed):
             failures.append(Failure("C13", f"{kind}:{what}:{'h' if fname.endswith('.h') else 'c'}", detail,
                                     {"kind": "inst", "label": label, "fname": fname, "lines": lines}))
     st.bump("template_instances", len(insts))
+    seen_ext = {}
+    cinsts = []
+    for t in insts:
+        ext = t[1][-2:]
+        if seen_ext.get(ext, 0) < (1 if tier == "quick" else 4):
+            seen_ext[ext] = seen_ext.get(ext, 0) + 1
+            cinsts.append(t)
+    res = explore.pmap(cli_task, cinsts, chunksize=1)
+    for (label, fname, lines, _), (n, out) in zip(cinsts, res):
+        st.runs += n
+        st.bump("command_level_runs", n)
+        for kind, what, detail in out:
+            failures.append(Failure("C13", f"{kind}:{what}:{'h' if fname.endswith('.h') else 'c'}", detail,
+                                    {"kind": "cli", "label": label, "fname": fname, "lines": lines}))
     seqs = list(sequences(2))
     chunks = list(explore.chunked(seqs, 40))
     res = explore.pmap(seq_task, chunks, chunksize=1)
@@ -221,6 +277,9 @@ def run(tier, seed):
 
 
 def replay(payload):
+    if payload["kind"] == "cli":
+        n, out = cli_task((payload["label"], payload["fname"], payload["lines"], "quick"))
+        return [Failure("C13", f"{k}:{w}", d, payload) for k, w, d in out]
     if payload["kind"] == "inst":
         n, out = inst_task((payload["label"], payload["fname"], payload["lines"], "quick"))
         return [Failure("C13", f"{k}:{w}", d, payload) for k, w, d in out]
